@@ -85,8 +85,10 @@ def run(rep, tier, rng):
         for d in dims:
             s = int(round(math.sqrt(d)))
             for on, (ul, ur) in OPTS.items():
-                for wrapper in ("network", "Bind"):
-                    if wrapper == "Bind" and (d > 9 or (quick and d not in (4, 5, 9))):
+                for wrapper in ("network", "Bind", "Bind-config"):
+                    if wrapper != "network" and (d > 9 or (quick and d not in (4, 5, 9))):
+                        continue
+                    if wrapper == "Bind-config" and on == "UnbindBoth":
                         continue
 
                     def build():
@@ -94,7 +96,14 @@ def run(rep, tier, rng):
                             net, ins, out = A.implement_binding(1, d, ul, ur)
                             return ins[0], ins[1], out
                         voc = spa.Vocabulary(d, algebra=A)
-                        b_ = spa.Bind(voc, unbind_left=ul, unbind_right=ur)
+                        if wrapper == "Bind-config":
+                            # the options given through the config system instead of constructor arguments
+                            with spa.Network() as sn:
+                                sn.config[spa.Bind].unbind_left = ul
+                                sn.config[spa.Bind].unbind_right = ur
+                                b_ = spa.Bind(voc)
+                        else:
+                            b_ = spa.Bind(voc, unbind_left=ul, unbind_right=ur)
                         return b_.input_left, b_.input_right, b_.output
                     pairs, kinds = [], []
                     E = [algs.basis(d, k) for k in range(d)]
